@@ -60,6 +60,10 @@ class EqAnyNode(AnyNode):
         return False
 
 
+class ExportBoom(Exception):
+    """Raised by a user callback (attriter/childiter) in the middle of an export."""
+
+
 DICTCLS = {"dict": dict, "OrderedDict": collections.OrderedDict, "MyDict": MyDict}
 NODECLS = {"AnyNode": AnyNode, "Node": Node, "AttrNM": AttrNM, "LenAnyNode": LenAnyNode, "EqAnyNode": EqAnyNode}
 
@@ -238,6 +242,28 @@ def _tree_once(case, acc, nodes):
     same_export(got, exp, dictcls)
     if exporter.export(start) != got:
         raise Violation("export-repeatable", "second export differs")
+    # a long-lived exporter whose earlier export() calls were aborted by an exception from a user callback works as before
+    trip = {"left": None}
+
+    def tripwire(func):
+        def inner(arg):
+            if trip["left"] is not None:
+                trip["left"] -= 1
+                if trip["left"] < 0:
+                    raise ExportBoom()
+            return func(arg)
+
+        return inner
+
+    exporter2 = DictExporter(**dict(kwargs, attriter=tripwire(attriter or (lambda items: items)), childiter=tripwire(childiter)))
+    for k in (case.get("abort_at", 3), 0, 2 * case.get("abort_at", 3) + 1):
+        trip["left"] = k
+        try:
+            exporter2.export(start)
+        except ExportBoom:
+            acc.tag("exports_aborted_by_callback_exception")
+        trip["left"] = None
+        same_export(exporter2.export(start), exp, dictcls, path="root (same exporter, after an aborted export)")
     if tree_state(nodes) != before:
         raise Violation("export-modifies-tree", "the exported tree was modified")
     # import what was exported
@@ -331,6 +357,7 @@ def random_cases(draw):
         "childiter": draw(st.sampled_from(["list", "reversed", "filter", "tail", "iter", "revgen"])),
         "dictcls": draw(st.sampled_from(["dict", "OrderedDict", "MyDict"])),
         "maxlevel": draw(st.one_of(st.none(), st.integers(0, 6))),
+        "abort_at": draw(st.integers(0, 8)),
         "mutations": draw(strategies.tree_mutations(max_ops=2, rename_values=st.integers(0, 5))),
     }
 
